@@ -216,6 +216,27 @@ def generate() -> list[str]:
     w("/-- `mdurl._encode.ENCODE_DEFAULT_CHARS` (dependency, as installed) -/")
     w("def encodeDefaultChars : List Nat := " + llist(sorted(ord(c) for c in menc.ENCODE_DEFAULT_CHARS), str))
     w("")
+    w("/-- code points on which `isPunctChar` (UNICODE_PUNCT_RE.search) is true, as closed ranges; evaluated over all")
+    w("    scalar values with the live pattern object -/")
+    rng_list = []
+    start = prev = None
+    pr = cutils.UNICODE_PUNCT_RE
+    for cp in range(0x110000):
+        if 0xD800 <= cp <= 0xDFFF:
+            hit = False
+        else:
+            hit = pr.search(chr(cp)) is not None
+        if hit:
+            if start is None:
+                start = cp
+            prev = cp
+        elif start is not None:
+            rng_list.append((start, prev))
+            start = None
+    if start is not None:
+        rng_list.append((start, prev))
+    w("def unicodePunctRanges : List (Nat × Nat) := " + llist(rng_list, lambda p: f"({p[0]}, {p[1]})"))
+    w("")
     tags, keys, unknown = scan_vocab()
     w("/-- tag literals of every `push(type, tag, nesting)` / `Token(type, tag, nesting)` call and every")
     w("    assignment to `.tag` found by an AST scan of markdown_it/** (`\"h\" + str(level)` = h1..h6) -/")
